@@ -14,13 +14,16 @@
 (* Every call line must be an enabled action of Scopes.tla (ApplySelf /    *)
 (* ApplyNamespace) and the observed link table and verdicts must be the    *)
 (* ones the specification computes.  Many runs are concatenated; "build"   *)
-(* resets the state.                                                       *)
+(* resets the state.  "rebuilt" / "rebuilt_ns" lines carry the links of    *)
+(* the same tree rebuilt from its description (SelfSerialize ->            *)
+(* UnserializeScope: one ApplySelf on the root), before and after the      *)
+(* namespaces of the run's last calls were applied to it.                  *)
 (***************************************************************************)
 EXTENDS Scopes, Json, IOUtils
 \* TLC orders record fields by first occurrence in the root module: tags first
 FieldOrder == [kind |-> 0, k |-> 0, op |-> 0, mode |-> 0, ok |-> 0, ev |-> 0, tag |-> 0, id |-> 0, ns |-> 0, s |-> 0,
                key |-> 0, name |-> 0, scope |-> 0, table |-> 0, req |-> 0, here |-> 0, chain |-> 0,
-               sub |-> 0, props |-> 0, items |-> 0, val |-> 0, v |-> 0, type |-> 0]
+               def |-> 0, sub |-> 0, props |-> 0, items |-> 0, val |-> 0, v |-> 0, type |-> 0]
 
 Trace == ndJsonDeserialize(IOEnv.VERIF_TRACE)
 VARIABLE l
@@ -40,6 +43,8 @@ Step(e) ==
                            /\ cov' = {} /\ built' = {} /\ hist' = <<>>
       [] e.ev = "self"  -> ApplySelf(e.scope)
       [] e.ev = "ns"    -> ApplyNamespace(e.scope, e.ns, e.table)
+      \* observations of the tree rebuilt from its own description: no step of the constructed tree
+      [] e.ev \in {"rebuilt", "rebuilt_ns"} -> UNCHANGED vars
 
 Next == l <= Len(Trace) /\ l' = l + 1 /\ Step(Trace[l])
 Spec == Init /\ [][Next]_<<l, vars>>
@@ -47,16 +52,30 @@ Spec == Init /\ [][Next]_<<l, vars>>
 \* the generator's contract: only well-formed trees are recorded
 Generated == (l > 1 /\ Trace[l - 1].ev = "build") => WellFormed(tree, ext)
 
+TreeTags == {s.tag : s \in TreeSites}
 Accepted ==
-    (l > 1 /\ Trace[l - 1].ev # "build") =>
-        {<<p[1], p[2]>> : p \in Range(Trace[l - 1].link)} = {<<g, link[g]>> : g \in DOMAIN link}
+    l > 1 =>
+      LET e == Trace[l - 1]
+          obs == {<<p[1], p[2]>> : p \in Range(e.link)}
+      IN CASE e.ev = "build"      -> TRUE
+           [] e.ev = "rebuilt"    -> obs = {<<g, RebuiltLink[g]>> : g \in TreeTags}   \* one ApplySelf on the root
+           [] e.ev = "rebuilt_ns" -> obs = {<<g, link[g]>> : g \in TreeTags}          \* + the namespaces just applied
+           [] OTHER               -> obs = {<<g, link[g]>> : g \in DOMAIN link}
 
-AcceptedVR ==
+AcceptedCallVR(e) ==
     (l > 1 /\ Trace[l - 1].ev # "build") =>
         \A p \in Range(Trace[l - 1].vr) :
             /\ p[1] \in built
             /\ p[2] = VR(ScopeByTag(p[1]), link)
             /\ p[2] = AllLinkedUnder(p[1], link)
+
+AcceptedVR ==
+    l > 1 =>
+      LET e == Trace[l - 1] IN
+      CASE e.ev = "build"      -> TRUE
+        [] e.ev = "rebuilt"    -> \A p \in Range(e.vr) : p[2] = VR(tree, RebuiltLink)
+        [] e.ev = "rebuilt_ns" -> \A p \in Range(e.vr) : p[2] = VR(tree, link)
+        [] OTHER               -> AcceptedCallVR(e)
 
 \* the declarative reading holds along every recorded run as well
 LexicalT == (l > 1 /\ tree # Leaf) => Lexical /\ ExtStable
